@@ -640,7 +640,7 @@ Example schemaless_der_reencode_choice_default_nonvacuous :
        /\ exists T0 v0, decode DER None e = Ok (DV T0 v0, []) /\ encode DER true 0 T0 v0 = Ok e.
 Proof.
   split; [vm_compute; reflexivity|]. split; [vm_compute; reflexivity|].
-  eexists. split; [vm_compute; reflexivity|]. eexists; eexists. split; vm_compute; reflexivity.
+  eexists. split; [vm_compute; reflexivity|]. eexists; eexists. split; [vm_compute; reflexivity | vm_compute; reflexivity].
 Qed.
 
 (* why a CHOICE directly inside a SET is excluded under CER: CER orders the components of a SET by the
